@@ -30,6 +30,8 @@
 #include "clstepcore/sdai.h"
 #include "cleditor/STEPfile.h"
 #include "clstepcore/STEPcomplex.h"
+#include "clstepcore/STEPaggrSelect.h"
+#include "clstepcore/selectTypeDescriptor.h"
 #include "clstepcore/complexSupport.h"
 #include "clstepcore/read_func.h"
 #include "clutils/Str.h"
@@ -340,6 +342,23 @@ static int run_fn() {
                 long prd = ( long )in.tellg();
                 r << "ok sev=" << ( int )s << " p1=" << p1 << " p2=" << p2 << " prd=" << prd;
                 delete o;
+            }
+        } else if( fn == "shallowcopy" ) {
+            // API history of the listed finding api:selectaggregate-shallowcopy-double-ownership: a select aggregate with one
+            // element (bytes = name of a SELECT type of the schema), ShallowCopy into a second aggregate, destroy both
+            const TypeDescriptor * td = reg.FindType( bytes.c_str() );
+            SelectTypeDescriptor * sd = td ? dynamic_cast< SelectTypeDescriptor * >( const_cast< TypeDescriptor * >( td ) ) : 0;
+            if( !sd ) {
+                r << "no-select";
+            } else {
+                SelectAggregate * a = new SelectAggregate;
+                a->AddNode( new SelectNode( sd->CreateSelect() ) );
+                SelectAggregate * b = new SelectAggregate;
+                b->ShallowCopy( *a );
+                fprintf( proto, "N %s copied\n", idx.c_str() ); fflush( proto );
+                delete a;
+                delete b;
+                r << "ok destroyed";
             }
         } else if( fn == "hdrkw" ) {
             // a header section whose first entity keyword has <arg> characters
